@@ -99,6 +99,8 @@ def _run(ctx, quick, pool):
     nd_grids = [(0.0, 0.1, 20, False), (0.5, 0.05, 16, True)] if quick else \
         [(0.0, 0.1, 20, False), (0.5, 0.05, 16, True), (-0.3, 0.01, 30, False), (1.0, 0.3, 9, True)]
     nd_jobs = [dict(c=c, seed=ctx.seed, grids=nd_grids, reps=3 if quick else 8) for c in nd_cfgs]
+    nd_jobs += [dict(c=c, seed=ctx.seed, grids=nd_grids[:1] if quick else nd_grids[:2], reps=2 if quick else 6, mixed=True)
+                for c in nd_cfgs if c["dtype"] == "float32" and c["ts_kind"] == "tensor" and c["noise"] == "diagonal"]   # (torch.bmm refuses mixed dtypes: only element-wise noise runs in mixed precision)
     n_nd = 0
     for job, out in zip(nd_jobs, pool.imap(loop.c13_nondyadic_group, nd_jobs, chunksize=2)):
         for k, smp in out["keys"]:
